@@ -214,44 +214,71 @@ Proof. intros l1 l2 l3 l4 H1 H2. unfold log_same in *. rewrite !flat_map_app, H1
 Lemma log_same_cons : forall x y l l', enc_log x = enc_log y -> log_same l l' -> log_same (x :: l) (y :: l').
 Proof. intros x y l l' H1 H2. unfold log_same in *. cbn [flat_map]. rewrite H1, H2. reflexivity. Qed.
 
-Lemma sim_do_act : forall cfg act a b a' la b' lb, sim a b ->
-  do_act cfg a act = (a', la) -> do_act cfg b act = (b', lb) -> sim a' b' /\ log_same la lb.
+(* enc_log LRaise = []: the encoded log does not say whether the callable raised, and both runs
+   branch on it, so the simulation carries has_raise along *)
+Definition log_rel (la lb : list logitem) : Prop := log_same la lb /\ has_raise la = has_raise lb.
+
+Lemma has_raise_app : forall l1 l2, has_raise (l1 ++ l2) = has_raise l1 || has_raise l2.
+Proof. intros l1 l2. unfold has_raise. apply existsb_app. Qed.
+
+Lemma log_rel_refl : forall l, log_rel l l.
+Proof. intros l. split; [apply log_same_refl|reflexivity]. Qed.
+
+Lemma log_rel_app : forall l1 l2 l3 l4, log_rel l1 l2 -> log_rel l3 l4 -> log_rel (l1 ++ l3) (l2 ++ l4).
 Proof.
-  intros cfg act a b a' la b' lb H HA HB. destruct act as [k t p tag h body|tag|h]; cbn [do_act] in *.
+  intros l1 l2 l3 l4 [H1 R1] [H2 R2]. split; [apply log_same_app; assumption|].
+  rewrite !has_raise_app, R1, R2. reflexivity.
+Qed.
+
+Lemma log_rel_cons : forall x y l l', enc_log x = enc_log y -> is_raise x = is_raise y ->
+  log_rel l l' -> log_rel (x :: l) (y :: l').
+Proof.
+  intros x y l l' H1 Hx [H2 R2]. split; [apply log_same_cons; assumption|].
+  unfold has_raise in *. cbn [existsb]. rewrite Hx, R2. reflexivity.
+Qed.
+
+Lemma sim_do_act : forall cfg act a b a' la b' lb, sim a b ->
+  do_act cfg a act = (a', la) -> do_act cfg b act = (b', lb) -> sim a' b' /\ log_rel la lb.
+Proof.
+  intros cfg act a b a' la b' lb H HA HB. destruct act as [k t p tag h body|tag|h|]; cbn [do_act] in *.
   - destruct (do_sched cfg a k t p tag h body) as [a1 rca] eqn:EA.
     destruct (do_sched cfg b k t p tag h body) as [b1 rcb] eqn:EB.
     destruct (sim_do_sched _ _ _ _ _ _ _ _ _ _ _ _ _ H EA EB) as [H1 ->].
     inversion HA; inversion HB; subst. split; [exact H1|].
     assert (E : sched_time a k t = sched_time b k t).
     { destruct H as (Ht & _). unfold sched_time. rewrite Ht. reflexivity. }
-    rewrite E. apply log_same_refl.
-  - inversion HA; inversion HB; subst. split; [apply sim_do_cancel, H|apply log_same_refl].
-  - inversion HA; inversion HB; subst. split; [apply sim_do_drop, H|apply log_same_refl].
+    rewrite E. apply log_rel_refl.
+  - inversion HA; inversion HB; subst. split; [apply sim_do_cancel, H|apply log_rel_refl].
+  - inversion HA; inversion HB; subst. split; [apply sim_do_drop, H|apply log_rel_refl].
+  - inversion HA; inversion HB; subst. split; [exact H|apply log_rel_refl].
 Qed.
 
 Lemma sim_do_acts : forall cfg acts a b a' la b' lb, sim a b ->
-  do_acts cfg a acts = (a', la) -> do_acts cfg b acts = (b', lb) -> sim a' b' /\ log_same la lb.
+  do_acts cfg a acts = (a', la) -> do_acts cfg b acts = (b', lb) -> sim a' b' /\ log_rel la lb.
 Proof.
   intros cfg acts. induction acts as [|x r IH]; intros a b a' la b' lb H HA HB; cbn [do_acts] in *.
-  - inversion HA; inversion HB; subst. split; [exact H|apply log_same_refl].
-  - destruct (do_act cfg a x) as [a1 la1] eqn:EA1. destruct (do_acts cfg a1 r) as [a2 la2] eqn:EA2.
-    destruct (do_act cfg b x) as [b1 lb1] eqn:EB1. destruct (do_acts cfg b1 r) as [b2 lb2] eqn:EB2.
-    inversion HA; inversion HB; subst.
+  - inversion HA; inversion HB; subst. split; [exact H|apply log_rel_refl].
+  - destruct (do_act cfg a x) as [a1 la1] eqn:EA1. destruct (do_act cfg b x) as [b1 lb1] eqn:EB1.
     destruct (sim_do_act _ _ _ _ _ _ _ _ H EA1 EB1) as [H1 L1].
-    destruct (IH _ _ _ _ _ _ H1 EA2 EB2) as [H2 L2].
-    split; [exact H2|apply log_same_app; assumption].
+    pose proof L1 as [_ R1]. rewrite R1 in HA.
+    destruct (has_raise lb1) eqn:Hr.
+    + inversion HA; inversion HB; subst. split; assumption.
+    + destruct (do_acts cfg a1 r) as [a2 la2] eqn:EA2. destruct (do_acts cfg b1 r) as [b2 lb2] eqn:EB2.
+      inversion HA; inversion HB; subst.
+      destruct (IH _ _ _ _ _ _ H1 EA2 EB2) as [H2 L2].
+      split; [exact H2|apply log_rel_app; assumption].
 Qed.
 
 (* ---------- 4. executing an event ---------- *)
 
 Lemma sim_execute : forall cfg a b ea eb a' la b' lb, sim a b -> ev_same ea eb ->
-  execute cfg a ea = (a', la) -> execute cfg b eb = (b', lb) -> sim a' b' /\ log_same la lb.
+  execute cfg a ea = (a', la) -> execute cfg b eb = (b', lb) -> sim a' b' /\ log_rel la lb.
 Proof.
   intros cfg a b ea eb a' la b' lb H He HA HB. unfold execute in *.
   pose proof He as (E1&E2&E3&E4&E5&E6&E7). pose proof H as (Ht & Hs & Hd & _).
   rewrite E4, E5, E6, E7, Hd in HA.
   destruct (e_cancelled eb).
-  { inversion HA; inversion HB; subst. split; [exact H|apply log_same_refl]. }
+  { inversion HA; inversion HB; subst. split; [exact H|apply log_rel_refl]. }
   destruct (e_step eb).
   - assert (H1 : sim (set_steps a (s_steps a + 1)) (set_steps b (s_steps b + 1))).
     { apply sim_set_steps; [exact H|rewrite Hs; reflexivity]. }
@@ -260,20 +287,20 @@ Proof.
     destruct (do_acts cfg (set_steps b (s_steps b + 1)) _) as [b2 lb2] eqn:EB.
     inversion HA; inversion HB; subst. rewrite Hs in H1.
     destruct (sim_do_acts _ _ _ _ _ _ _ _ H1 EA EB) as [H2 L2].
-    split; [exact H2|apply log_same_cons; [reflexivity|exact L2]].
+    split; [exact H2|apply log_rel_cons; [reflexivity|reflexivity|exact L2]].
   - destruct (memz (e_holder eb) (s_dead b)).
-    { inversion HA; inversion HB; subst. split; [exact H|apply log_same_refl]. }
+    { inversion HA; inversion HB; subst. split; [exact H|apply log_rel_refl]. }
     destruct (do_acts cfg a (e_body eb)) as [a2 la2] eqn:EA.
     destruct (do_acts cfg b (e_body eb)) as [b2 lb2] eqn:EB.
     inversion HA; inversion HB; subst.
     destruct (sim_do_acts _ _ _ _ _ _ _ _ H EA EB) as [H2 L2].
-    split; [exact H2|apply log_same_cons; [|exact L2]].
+    split; [exact H2|apply log_rel_cons; [|reflexivity|exact L2]].
     cbn [enc_log]. rewrite E3, Ht. reflexivity.
 Qed.
 
 Lemma sim_exec_event : forall cfg a b ea eb a' la b' lb, sim a b -> ev_same ea eb ->
   e_uid ea < s_uid a -> e_uid eb < s_uid b ->
-  exec_event cfg a ea = (a', la) -> exec_event cfg b eb = (b', lb) -> sim a' b' /\ log_same la lb.
+  exec_event cfg a ea = (a', la) -> exec_event cfg b eb = (b', lb) -> sim a' b' /\ log_rel la lb.
 Proof.
   intros cfg a b ea eb a' la b' lb H He _ _ HA HB. unfold exec_event in *.
   pose proof He as (E1&_&_&_&E5&_). rewrite E1, E5 in HA.
@@ -320,11 +347,11 @@ Qed.
    the event list, hence the invariant on both sides *)
 Lemma sim_run_loop : forall cfg fuel endt a b a' la oka b' lb okb, sim a b -> inv a -> inv b ->
   run_loop cfg fuel endt a = (a', la, oka) -> run_loop cfg fuel endt b = (b', lb, okb) ->
-  sim a' b' /\ log_same la lb /\ oka = okb.
+  sim a' b' /\ log_rel la lb /\ oka = okb.
 Proof.
   intros cfg fuel endt. induction fuel as [|n IH]; intros a b a' la oka b' lb okb H Ia Ib HA HB;
     cbn [run_loop] in *.
-  - inversion HA; inversion HB; subst. split; [exact H|split; [apply log_same_refl|reflexivity]].
+  - inversion HA; inversion HB; subst. split; [exact H|split; [apply log_rel_refl|reflexivity]].
   - pose proof (sim_pop_none _ _ H) as PN.
     destruct (pop_event (s_events a)) as [[ea ra]|] eqn:PA;
       destruct (pop_event (s_events b)) as [[eb rb]|] eqn:PB; try contradiction.
@@ -332,28 +359,31 @@ Proof.
       pose proof He as (E1 & _). rewrite E1 in HA.
       destruct (Z.leb_spec (e_time eb) endt) as [Hle|Hgt].
       * destruct (exec_event cfg (set_events a ra) ea) as [a1 la1] eqn:EA1.
-        destruct (run_loop cfg n endt a1) as [[a2 la2] oka2] eqn:EA2.
         destruct (exec_event cfg (set_events b rb) eb) as [b1 lb1] eqn:EB1.
+        destruct (sim_exec_event _ _ _ _ _ _ _ _ _ Hr He Ua Ub EA1 EB1) as [H1 L1].
+        pose proof L1 as [_ R1]. rewrite R1 in HA.
+        destruct (has_raise lb1) eqn:Hrs.
+        { inversion HA; inversion HB; subst. split; [exact H1|split; [exact L1|reflexivity]]. }
+        destruct (run_loop cfg n endt a1) as [[a2 la2] oka2] eqn:EA2.
         destruct (run_loop cfg n endt b1) as [[b2 lb2] okb2] eqn:EB2.
         inversion HA; inversion HB; subst.
-        destruct (sim_exec_event _ _ _ _ _ _ _ _ _ Hr He Ua Ub EA1 EB1) as [H1 L1].
         assert (Ia1 : inv a1) by (exact (inv_exec_event _ _ _ _ _ _ Ia PA EA1)).
         assert (Ib1 : inv b1) by (exact (inv_exec_event _ _ _ _ _ _ Ib PB EB1)).
         destruct (IH _ _ _ _ _ _ _ _ H1 Ia1 Ib1 EA2 EB2) as (H2 & L2 & O2).
-        split; [exact H2|split; [apply log_same_app; assumption|exact O2]].
+        split; [exact H2|split; [apply log_rel_app; assumption|exact O2]].
       * inversion HA; inversion HB; subst.
         assert (Hgta : endt < e_time ea) by lia.
         destruct (inv_stop _ _ _ endt Ia PA Hgta) as (_ & Sa & _).
         destruct (inv_stop _ _ _ endt Ib PB Hgt) as (_ & Sb & _).
-        rewrite Sa, Sb. split; [|split; [apply log_same_refl|reflexivity]].
+        rewrite Sa, Sb. split; [|split; [apply log_rel_refl|reflexivity]].
         destruct Hr as (Ht & Hs & Hd & Hr & Ba & Bb).
         unfold sim, bounded in *. sfields. repeat split; auto.
-    + inversion HA; inversion HB; subst. split; [|split; [apply log_same_refl|reflexivity]].
+    + inversion HA; inversion HB; subst. split; [|split; [apply log_rel_refl|reflexivity]].
       destruct H as (Ht & Hs & Hd & He & Ba & Bb).
       unfold sim, bounded. sfields. repeat split; auto.
 Qed.
 
-Lemma sim_run_next : forall cfg a b a' la b' lb, sim a b -> run_next cfg a = (a', la) -> run_next cfg b = (b', lb) -> sim a' b' /\ log_same la lb.
+Lemma sim_run_next : forall cfg a b a' la b' lb, sim a b -> run_next cfg a = (a', la) -> run_next cfg b = (b', lb) -> sim a' b' /\ log_rel la lb.
 Proof.
   intros cfg a b a' la b' lb H HA HB. unfold run_next in *.
   pose proof (sim_pop_none _ _ H) as PN.
@@ -361,7 +391,7 @@ Proof.
     destruct (pop_event (s_events b)) as [[eb rb]|] eqn:PB; try contradiction.
   - destruct (sim_popped _ _ _ _ _ _ H PA PB) as (He & Hr & Ua & Ub).
     eapply sim_exec_event; [exact Hr|exact He|exact Ua|exact Ub|exact HA|exact HB].
-  - inversion HA; inversion HB; subst. split; [|apply log_same_refl].
+  - inversion HA; inversion HB; subst. split; [|apply log_rel_refl].
     destruct H as (Ht & Hs & Hd & He & Ba & Bb).
     unfold sim, bounded. sfields. repeat split; auto.
 Qed.
@@ -411,19 +441,19 @@ Proof.
     split; [exact H1|]. rewrite (view_sim _ _ [] [] H1 (log_same_refl _)). reflexivity.
   - destruct (run_loop cfg fuel t a) as [[a1 la1] oka] eqn:EA.
     destruct (run_loop cfg fuel t b) as [[b1 lb1] okb] eqn:EB.
-    destruct (sim_run_loop _ _ _ _ _ _ _ _ _ _ _ H Ia Ib EA EB) as (H1 & L1 & ->).
+    destruct (sim_run_loop _ _ _ _ _ _ _ _ _ _ _ H Ia Ib EA EB) as (H1 & [L1 R1] & ->).
     inversion HA; inversion HB; subst. split; [exact H1|].
-    rewrite (view_sim _ _ _ _ H1 L1). reflexivity.
+    rewrite (view_sim _ _ _ _ H1 L1). unfold run_head. rewrite R1. reflexivity.
   - pose proof H as (Ht & _). rewrite Ht in HA.
     destruct (run_loop cfg fuel (s_time b + d) a) as [[a1 la1] oka] eqn:EA.
     destruct (run_loop cfg fuel (s_time b + d) b) as [[b1 lb1] okb] eqn:EB.
-    destruct (sim_run_loop _ _ _ _ _ _ _ _ _ _ _ H Ia Ib EA EB) as (H1 & L1 & ->).
+    destruct (sim_run_loop _ _ _ _ _ _ _ _ _ _ _ H Ia Ib EA EB) as (H1 & [L1 R1] & ->).
     inversion HA; inversion HB; subst. split; [exact H1|].
-    rewrite (view_sim _ _ _ _ H1 L1). reflexivity.
+    rewrite (view_sim _ _ _ _ H1 L1). unfold run_head. rewrite R1. reflexivity.
   - destruct (run_next cfg a) as [a1 la1] eqn:EA. destruct (run_next cfg b) as [b1 lb1] eqn:EB.
-    destruct (sim_run_next _ _ _ _ _ _ _ H EA EB) as (H1 & L1).
+    destruct (sim_run_next _ _ _ _ _ _ _ H EA EB) as (H1 & [L1 R1]).
     inversion HA; inversion HB; subst. split; [exact H1|].
-    rewrite (view_sim _ _ _ _ H1 L1). reflexivity.
+    rewrite (view_sim _ _ _ _ H1 L1). unfold run_head. rewrite R1. reflexivity.
   - pose proof H as (_ & _ & _ & He & _).
     destruct He as [|ha hb ta tb Hh Ht'].
     + inversion HA; inversion HB; subst. split; [exact H|reflexivity].
